@@ -21,7 +21,7 @@ ANCHORS = ["State.__eq__", "Lanelet.__eq__", "Obstacle.__eq__", "Obstacle.__hash
            "TrafficSign.__eq__", "Intersection.__eq__"]
 REQUIRED = ["law.reflexive", "law.deepcopy", "law.symmetric", "law.twin", "law.perturbation", "law.hash-total",
             "law.hash-consistent", "defaults-instance", "law.kwargs-order", "law.cross-class-state", "law.optional-subsets", "law.derived-attribute-twin",
-            "coordinates-of-different-magnitude", "law.after-update_initial_state", "law.assembly-twin", "law.moved-after-compared", "law.other-representation",
+            "coordinates-of-different-magnitude", "law.after-update_initial_state", "law.assembly-twin", "law.moved-after-compared", "law.other-representation", "law.inspected-twin",
             "class.Polygon.large", "class.Lanelet.large"]
 ASSUMPTIONS = ["perturbations are clearly different valid values (never a reordering or a duplicate)",
                "real perturbations are >= 1e-6, i.e. far above the documented 1e-10 resolution"]
@@ -669,6 +669,25 @@ def run(ctx):
                             if ra[0] == "ok" and rb[0] == "ok" and ra[1] != rb[1]:
                                 V("moved-after-compared-still-equals-old-place", "compared-then-moved vs old: %s; "
                                   "moved twin vs old: %s" % (ra[1], rb[1]))
+        # L12 reading an object's public attributes / properties (some are computed on first access) is no attribute change:
+        # an inspected object still equals -- and hashes like -- its never-inspected twin
+        if not use_defaults:
+            t12 = safe(lambda: build()[0])
+            if t12[0] == "ok":
+                for a_ in dir(t12[1]):
+                    if not a_.startswith("_"):
+                        safe(getattr, t12[1], a_)
+                ctx.feature("law.inspected-twin")
+                ctx.evaluation()
+                r = eq_ops(x, t12[1])
+                if r[0] == "exc":
+                    V("eq-raises-%s/inspected-twin" % type(r[1]).__name__, repr(r[1]))
+                elif r[1] != (True, True, False, False):
+                    V("inspected-object-differs-from-twin", "x==inspected twin -> %s" % (r[1],))
+                elif h[0] == "ok":
+                    h2 = safe(hash, t12[1])
+                    if h2[0] == "ok" and h2[1] != h[1]:
+                        V("equal-but-hash-differs", "inspected-twin")
         # L11 the same value in another REPRESENTATION (a single prediction id given as a one-element list, an integer-valued
         # float, a numpy integer): the statement does not say whether such objects are equal -- but whatever == answers,
         # it answers symmetrically, and equal objects hash equally
